@@ -37,6 +37,12 @@ claimed = {
  "C19": ("SSA rules on package main: who-may-write inventory of file-mutating calls over all product packages, backward value-flow of the written data and path, dominance of the write by the Transpile error check, error-result discipline of every call in main, provenance of the converter handed to Transpile (constructor call vs package-level state), remainder check of the option pair loop",
          "Structural necessary conditions of the command's contract for all option lists and inputs. File-system behaviour itself is not decided.",
          "Trusts go/ssa and the list of file-mutating standard-library calls.", "§3 C19"),
+ "C13": ("SSA rules over the library packages: dominance of every non-comma-ok type assertion by the matching StatementType() tag test (tag→type map derived from the methods) or closed producer types; enumeration of every index/slice expression with automatic discharge (range bound, dominating length guard, down-counting loop) and a reviewed table with reasons; cross-layer check parser placement ⊇ converter stack accessors; Tarjan SCCs of the static call graph classified (token-consuming recursion vs file-loading recursion needing a visited-set guard); Transpile result discipline; must-consume analysis of parser loops",
+         "Structural necessary conditions of totality per assertion / index / cycle / loop site. Resource exhaustion, stdlib panics and termination of the lexer's scanning loops are not decided; the index rule is a reviewed obligation list.",
+         "Reviewed tables (index sites, path-sensitive loops) are part of the trusted base and are listed with reasons in the checker source.", "§3 C13"),
+ "C14": ("SSA rules: effect classification of every map iteration (keyed stores vs order-observable effects), deny-list scan for ambient-state calls, forward taint of path-valued ambient sources through values, struct fields and calls with tree-node / hash / map sinks, backward provenance of the namespace prefix, writer inventory of package-level variables, Transpile's converter/parser discipline",
+         "Under soundness of the static view (no reflect/unsafe: checked) the rules cover all call histories, process instances and locations the property quantifies over.",
+         "Trusts the taint propagation (field-sensitive at type.field granularity) and C19 for fresh converters at the only in-repo caller.", "§3 C14"),
 }
 na_reason = {
  "C15": "value-level agreement of a TypeShell library executed by a shell with Go's strings package over all arguments; no clause of it is visible in the shape of the Go sources or of std/strings.tsh; static analysis (this task's technique family) cannot address it",
